@@ -213,6 +213,22 @@ class SSHSOCKSForwarder(SSHLocalForwarder):
         self._send_socks5_ok()
         self._connect()
 
+    def is_request_pending(self) -> bool:
+        """Return whether the SOCKS request is still being received"""
+
+        return self._recv_handler is not None and self._transport is not None
+
+    def eof_received(self) -> bool:
+        """Handle an incoming end of file from the SOCKS client"""
+
+        if self._recv_handler:
+            # The client gave up before completing its request, so
+            # there's nothing to forward and nobody else to close this
+            self.close()
+            return False
+
+        return super().eof_received()
+
     def data_received(self, data: bytes, datatype: DataType = None) -> None:
         """Handle incoming data from the SOCKS client"""
 
